@@ -62,14 +62,34 @@ AttrCases == {
     [id |-> "separate_skip_last",  hasRename |-> FALSE, rename |-> <<>>, skip |-> TRUE,  onVariant |-> FALSE],
     [id |-> "with_doc_mentioning_skip", hasRename |-> FALSE, rename |-> <<>>, skip |-> FALSE, onVariant |-> TRUE] }
 
+\* Structured attribute lists: up to three items out of six, all distinct (serde rejects duplicates), in every
+\* order, split into separate #[serde(..)] attributes in every way (one item per attribute, or two in one)
+AItems == {"rename", "skip", "default", "default_fn", "skip_ser_if", "alias"}
+AttrLists ==
+    { << <<a>> >> : a \in AItems }
+    \cup { << <<a>>, <<b>> >> : <<a, b>> \in {p \in AItems \X AItems : p[1] # p[2]} }
+    \cup { << <<a, b>> >> : <<a, b>> \in {p \in AItems \X AItems : p[1] # p[2]} }
+    \cup UNION { { << <<t[1]>>, <<t[2]>>, <<t[3]>> >>, << <<t[1], t[2]>>, <<t[3]>> >>, << <<t[1]>>, <<t[2], t[3]>> >> }
+                 : t \in {q \in AItems \X AItems \X AItems : q[1] # q[2] /\ q[1] # q[3] /\ q[2] # q[3]} }
+ItemsOf(al) == UNION { {al[i][j] : j \in DOMAIN al[i]} : i \in DOMAIN al }
+ListRename == <<"r","n">>
+ListIdents == {<<"u","s","e","r","_","n","a","m","e">>, <<"x","1","_","y">>}
+ListRules == {"none", "camelCase", "SCREAMING_SNAKE_CASE"}
+AttrListCases ==
+    {[kind |-> "field", rule |-> r, ident |-> s, attr |-> "list", alist |-> al,
+      hasRename |-> "rename" \in ItemsOf(al), rename |-> (IF "rename" \in ItemsOf(al) THEN ListRename ELSE <<>>),
+      skip |-> "skip" \in ItemsOf(al)]
+        : r \in ListRules, s \in ListIdents, al \in AttrLists}
+
 AttrIdentsF == {<<"u","s","e","r","_","n","a","m","e">>, <<"i","d">>, <<"x","1","_","y">>}
 AttrIdentsV == {<<"I","n","P","r","o","g","r","e","s","s">>, <<"O","k">>, <<"H","T","T","P","S","e","r","v","e","r">>}
 AttrCasesAll ==
-    {[kind |-> "field", rule |-> r, ident |-> s, attr |-> a.id, hasRename |-> a.hasRename, rename |-> a.rename, skip |-> a.skip]
+    {[kind |-> "field", rule |-> r, ident |-> s, attr |-> a.id, alist |-> <<>>, hasRename |-> a.hasRename, rename |-> a.rename, skip |-> a.skip]
         : r \in AllRules, s \in AttrIdentsF, a \in AttrCases}
     \cup
-    {[kind |-> "variant", rule |-> r, ident |-> s, attr |-> a.id, hasRename |-> a.hasRename, rename |-> a.rename, skip |-> a.skip]
+    {[kind |-> "variant", rule |-> r, ident |-> s, attr |-> a.id, alist |-> <<>>, hasRename |-> a.hasRename, rename |-> a.rename, skip |-> a.skip]
         : r \in AllRules, s \in AttrIdentsV, a \in {x \in AttrCases : x.onVariant}}
+    \cup AttrListCases
 
 \* ---- C04: parameter names (snake_case incl. digits, leading / trailing / double underscores, raw)
 ParamAlpha == {"a", "b", "1", "_"}
